@@ -12,9 +12,11 @@ RULE = ("TC28 / TC29 subtype 0 and 1 / TC31 / TC19 messages built from DO-260A/B
         "codes 5..22 x NIC supplement bits x version {None,0,1,2} for the look-ups. Oracle: the encoded values, None exactly for 'no data' "
         "codes, selected heading = (256*sign+N)*180/256 mod 360, is_emergency per emergency state, categories per the DO-260 TC maps, "
         "monotone bounds. non-trivial = sign bit set, subtype-0 frames, 'no data' codes, supplement-resolved categories")
-ASSUMPTIONS = ["layout tables in ref/do260.py written from DO-260A (TC29 subtype 0) and DO-260B (subtype 1, TC28, TC31)",
+ASSUMPTIONS = ["every non-zero TC28 emergency state (incl. 6 'downed aircraft' and the reserved 7) counts as 'an emergency state other than none'",
+               "the vertical containment radius RCv of nuc_p exists only for the GNSS-height type codes 20/21 (DO-260 NUCp table)",
+               "layout tables in ref/do260.py written from DO-260A (TC29 subtype 0) and DO-260B (subtype 1, TC28, TC31)",
                "label strings (sources, Heading/Track) are only required to be a function of, and distinct for distinct values of, their field",
-               "emergency states 6-7, TC28 subtypes 2-7, TC29 subtypes 2-3, target altitude codes > 1010 and angles > 359 are unconstrained",
+               "TC28 subtypes 2-7, TC29 subtypes 2-3, target altitude codes > 1010 and angles > 359 are unconstrained",
                "NIC of TC7/TC8 under version 1 and of invalid supplement combinations is not asserted, only that a tuple is returned",
                "metre/probability values of the bounds are not asserted, only None-ness for category 0 and monotonicity"]
 
@@ -50,7 +52,7 @@ V1_ONLY = ["target_altitude", "vertical_mode", "horizontal_mode", "target_angle"
 
 
 def enum_v2(ctx):
-    k = 1 if ctx.tier == "quick" else 10
+    k = 4 if ctx.tier == "quick" else 40
     idx = 0
     for name, top in V2_SWEEPS:
         for val in range(top):
@@ -147,7 +149,7 @@ def label_fn(kind, key, label):
 
 
 def enum_v1(ctx):
-    k = 1 if ctx.tier == "quick" else 10
+    k = 4 if ctx.tier == "quick" else 40
     idx = 0
     for name, top in V1_SWEEPS:
         for val in range(top):
@@ -224,7 +226,7 @@ def chk_v1(c, note):
 
 # ----------------------------------------------------------------------------- TC28, TC31, TC19
 def enum_misc(ctx):
-    k = 2 if ctx.tier == "quick" else 20
+    k = 6 if ctx.tier == "quick" else 60
     idx = 0
     for kind, top in (("tc28", 64), ("tc31", 8 * 2 * 16 * 4 * 2 * 2), ("tc19", 8)):
         for val in range(top):
@@ -251,7 +253,7 @@ def chk_misc(c, note):
                 return "is_emergency(%s) on subtype 2 -> %r" % (msg, r)
         elif r[0] != "ok" or not isinstance(r[1], (bool,)):
             return "is_emergency(%s) -> %r, expected a bool" % (msg, r)
-        elif sub == 1 and 1 <= st <= 5 and r[1] is not True:
+        elif sub == 1 and st >= 1 and r[1] is not True:
             return "is_emergency(%s) = %r although emergency state %d is reported" % (msg, r[1], st)
         elif (sub == 0 or (sub == 1 and st == 0)) and r[1] is not False:
             return "is_emergency(%s) = %r although %s" % (msg, r[1], "subtype 0 (no information)" if sub == 0 else "state 0 (no emergency)")
@@ -305,7 +307,7 @@ def chk_nacp_mono(t):
 
 # ----------------------------------------------------------------------------- look-ups over TC x supplements
 def enum_lookup(ctx):
-    k = 3 if ctx.tier == "quick" else 40
+    k = 40 if ctx.tier == "quick" else 600
     idx = 0
     for tc in range(5, 23):
         for j in range(k):
@@ -334,6 +336,10 @@ def chk_lookup(c, note):
         return "nuc_p(%s) = %r, TC%d means NUCp %d" % (msg, r, tc, L.TC_NUCP[tc])
     if (r[1][1] is None) != (r[1][0] == 0):
         return "nuc_p(%s) = %r: HPL must be None exactly for NUCp 0" % (msg, r[1])
+    if tc < 20 and r[1][3] is not None:
+        return "nuc_p(%s) = %r: a vertical containment radius is reported for TC%d, which carries no GNSS height" % (msg, r[1], tc)
+    if tc in (20, 21) and r[1][3] is None:
+        return "nuc_p(%s) = %r: no vertical containment radius for GNSS-height TC%d" % (msg, r[1], tc)
     for nics in (0, 1):
         r = call(A.nic_v1, msg, nics)
         if r[0] != "ok" or not isinstance(r[1], tuple) or len(r[1]) != 3:
@@ -389,7 +395,7 @@ def _injective(kind, pairs):
 
 def enum_mono(ctx):
     kinds = ["nac_p", "nuc_v", "nac_v", "sil", "nuc_p", "nic_v1", "nic_v2", "labels"]
-    k = 4 if ctx.tier == "quick" else 60
+    k = 12 if ctx.tier == "quick" else 200
     idx = 0
     for kind in kinds:
         for j in range(k):
